@@ -110,6 +110,39 @@ def t1_final_rounding(ctx: Ctx):
         ctx.check(good, REALS, f, f'RealFloat.{m}', 'num_randbits == 0 -> deterministic; otherwise stochastic with the same (p, n, emin, rm, rng, exact)', 'dispatch changed')
 
 
+def t2_overflow_follows_the_draw(ctx: Ctx):
+    """An operand between the largest value of a bounded format and the next point of its grid has that value and the
+    infinity for neighbours; the draw picks one.  The overflow arm is only entered when the draw rounded away (toward
+    zero the result is the largest value, which does not overflow), so in a stochastic context the infinity must not be
+    made conditional on the *base* mode there -- under RTZ no draw would ever reach it.  In each bounded context family
+    the to-infinity decision of the OVERFLOW arm is the base-mode table, overridden to "infinity" when random bits are
+    in use and the operand's toward-zero neighbour is representable."""
+    n = 0
+    for rel, cname, c in c01.context_classes(ctx.repo):
+        fn = c01.own_method(c, '_round_at')
+        if fn is None or not any(isinstance(k, ast.Call) and call_name(k) == 'self._overflow_to_infinity' for k in ast.walk(fn)):
+            continue
+        uses_randbits = any(isinstance(a, ast.Attribute) and norm(a) == 'self.num_randbits' for a in ast.walk(fn))
+        if not uses_randbits:
+            continue        # a family without random bits (exponent-only formats)
+        n += 1
+        q = f'{cname}._round_at'
+        dec = [s for s in ast.walk(fn) if isinstance(s, ast.Assign) and isinstance(s.value, ast.Call) and call_name(s.value) == 'self._overflow_to_infinity'
+               and isinstance(s.targets[0], ast.Name)]
+        ok = len(dec) == 1
+        if ok:
+            v = dec[0].targets[0].id
+            over = [s for s in ast.walk(fn) if isinstance(s, ast.If) and 'self.num_randbits != 0' in norm(s.test) and 'not self._is_overflowing(' in norm(s.test)
+                    and 'RoundingMode.RTZ' in norm(s.test) and [norm(x) for x in s.body if not isinstance(x, ast.Expr)] == [f'{v} = True'] and not s.orelse]
+            used = [s for s in ast.walk(fn) if isinstance(s, ast.If) and norm(s.test) == v]
+            direct = [s for s in ast.walk(fn) if isinstance(s, ast.If) and 'self._overflow_to_infinity(' in norm(s.test)]
+            ok = len(over) == 1 and len(used) == 1 and not direct
+        ctx.check(ok, rel, fn, q, 'stochastic context: an overflow out of the gap above the largest value goes to the infinity whatever the base mode',
+                  'the to-infinity decision asks the base mode only: under RTZ (RTN for positive operands) 0 of 2**k draws reach +inf for an operand past the largest value')
+    if n < 2:
+        raise ShapeError(f'only {n} bounded stochastic families found')
+
+
 def p3_round_reached(ctx: Ctx):
     """One draw per rounding of a finite non-zero operand: in each context's `_round_at`, no path returns a value for such
     an operand without going through the rounding call (the only place a draw is taken).  A shortcut for operands that
@@ -164,6 +197,7 @@ RULES = [
     Rule('C17.T1', 'result = ordinary rounding at the original position, away iff round_up else toward zero', t1_final_rounding, 8, 'T'),
     Rule('C17.F1', 'every context forwards rm, num_randbits, rng, exact to RealFloat.round', c01.f1_plumbing, 32, 'F'),
     Rule('C17.P2', 'zeros and special values never reach the drawing code', c01.p2_specials_first, 15, 'P'),
+    Rule('C17.T2', 'in a stochastic context an overflow out of the gap above the largest value follows the draw, not the base mode', t2_overflow_follows_the_draw, 2, 'T'),
     Rule('C17.P3', 'no context returns a finite non-zero operand without going through the rounding call (one draw per rounding, representable operands included)', p3_round_reached, 15, 'P'),
     Rule('C17.S1', 'round_params widens the engine precision by the random bits', f3_round_params, 10, 'S'),
 ]
@@ -180,6 +214,9 @@ MUTANTS = [
     Mutant('draw-only-when-inexact', REALS, "        randbits = self._generate_randbits(rng, num_randbits)\n\n        # step 3", "        randbits = 0\n\n        # step 3", 'C17.P1'),
     Mutant('draw-twice', REALS, "            round_up = randbits + lost_c >= (1 << num_randbits)", "            round_up = self._generate_randbits(rng, num_randbits) + lost_c >= (1 << num_randbits)", 'C17.P1'),
     Mutant('draw-from-global', REALS, "        randbits = self._generate_randbits(rng, num_randbits)", "        randbits = self._generate_randbits(None, num_randbits)", 'C17.P1'),
+    Mutant('stochastic-overflow-asks-the-base-mode', CTX + 'mpb_float.py', "                    if self.num_randbits != 0 and not self._is_overflowing(\n                        x.round(self.pmax, n, RoundingMode.RTZ)\n                    ):", "                    if False:", 'C17.T2',
+           'finding F66 before its repair: IEEEContext(4, 8, RTZ, num_randbits=3) sends 0 of 8 draws to +inf for 244'),
+    Mutant('stochastic-overflow-asks-the-base-mode-fixed', CTX + 'mpb_fixed.py', "                    if self.num_randbits != 0 and not self._is_overflowing(\n                        operand.round(min_n=n, rm=RoundingMode.RTZ)\n                    ):", "                    if False:", 'C17.T2'),
     Mutant('numpy-wide-draw-refused', REALS, "        elif k < 63:\n            return int(rng.integers(0, 1 << k))\n        else:\n            # a numpy `Generator` draws integers of at most 64 bits: take\n            # the bytes (one draw still) and drop the surplus bits\n            nbytes = (k + 7) // 8\n            return int.from_bytes(rng.bytes(nbytes), 'little') >> (8 * nbytes - k)\n",
            "        else:\n            return int(rng.integers(0, 1 << k))\n", 'C17.P1', 'finding F65 before its repair: k >= 63 raises with a numpy Generator'),
     Mutant('numpy-wide-draw-keeps-surplus-bits', REALS, "            return int.from_bytes(rng.bytes(nbytes), 'little') >> (8 * nbytes - k)", "            return int.from_bytes(rng.bytes(nbytes), 'little')", 'C17.P1',
